@@ -47,6 +47,7 @@ CORES = int(os.environ.get("VERIF_CORES", str(os.cpu_count() or 4)))
 BUDGET_FILE = SCRATCH_ROOT / "verif-budget.json"
 
 VERIF_BASE = 0x5EEDC0DE00000000      # harness/support.rs
+VERIF_FILL = 0xA5A55A5AC3C33C3C
 
 CBMC_FLAGS = [
     "--no-malloc-may-fail", "--no-undefined-shift-check",
@@ -73,6 +74,11 @@ REPO_MODULES = (
 
 def log(*a):
     print(*a, flush=True)
+
+
+def signed(vals):
+    """u64 witness values shown as i64 when the top bit is set (readability only)"""
+    return [v - (1 << 64) if v >= (1 << 63) else v for v in vals]
 
 
 # --------------------------------------------------------------------------
@@ -113,6 +119,7 @@ class HarnessFile:
         self.stem = path.stem
         self.module = None
         self.prop = None
+        self.also = []               # other properties whose checks need this file compiled in
         self.header = []
         self.harnesses = []
         text = path.read_text()
@@ -126,6 +133,10 @@ class HarnessFile:
                 m = re.match(r"@property\s+(\S+)", body)
                 if m:
                     self.prop = m.group(1)
+                    continue
+                m = re.match(r"@also\s+(.*)", body)
+                if m:
+                    self.also += m.group(1).split()
                     continue
                 self.header.append(line[3:].rstrip())
             m = re.match(r"\s*//\s*@harness\s+(\w+)\s*(.*)$", line)
@@ -483,6 +494,13 @@ def witness_from_trace(parsed, prop_id):
                         idx = int(md.group(1))
                 if idx is not None and "binary" in v:
                     vals[idx] = int(v["binary"], 2)
+                elif lhs == "VERIF_W" and isinstance(v.get("elements"), list):
+                    # whole-array snapshot (CBMC prints these at phi nodes): every slot that no
+                    # longer holds the fill pattern has been written by vin()
+                    for el in v["elements"]:
+                        ev = el.get("value", {})
+                        if "binary" in ev and int(ev["binary"], 2) != VERIF_FILL:
+                            vals[int(el.get("index", -1))] = int(ev["binary"], 2)
                 elif lhs == "VERIF_N" and "binary" in v:
                     n = int(v["binary"], 2) - VERIF_BASE
             if vals:
@@ -611,11 +629,13 @@ def match_known(found, prop, harness, label):
 
 def run_check(prop, tier, only, keep, seed):
     t_start = time.time()
-    files = [f for f in load_registry() if f.prop == prop]
-    if not files:
+    registry = load_registry()
+    own = [f for f in registry if f.prop == prop]
+    files = own + [f for f in registry if f.prop != prop and prop in f.also]
+    if not own:
         raise SystemExit("no harness file for property %s" % prop)
     harnesses = []
-    for f in files:
+    for f in own:
         for h in f.harnesses:
             if only and h.name not in only:
                 continue
@@ -849,10 +869,11 @@ def run_check(prop, tier, only, keep, seed):
             for v in rec["violations"]:
                 n_viol += 1
                 log("VIOLATION property=%s replay=%s" % (prop, v["replay"]))
-                log("    harness=%s label=%s witness=%s native(dev)=%s:%s %s | release: %s"
-                    % (rec["harness"], v["label"], v["witness"],
+                log("    harness=%s label=%s witness=%s native(dev)=%s:%s %s | release: %s%s"
+                    % (rec["harness"], v["label"], signed(v["witness"]),
                        v["native_dev"].get("file"), v["native_dev"].get("line"),
-                       v["native_dev"].get("message"), v["native_release"].get("outcome")))
+                       v["native_dev"].get("message"), v["native_release"].get("outcome"),
+                       (" | input text: " + v["native_dev"]["input"]) if v["native_dev"].get("input") else ""))
         inconclusive = [r for r in results
                         if r["verdict"] == "inconclusive" and not r["stretch"]]
         stretch_open = [r for r in results if r["verdict"] == "inconclusive" and r["stretch"]]
@@ -964,7 +985,7 @@ def write_evidence(prop, tier, seed, results, files, wall, violations=0, note=""
 
 def run_replay(path):
     data = json.loads(Path(path).read_text())
-    files = [f for f in load_registry() if f.prop == data["property"]]
+    files = [f for f in load_registry() if f.prop == data["property"] or data["property"] in f.also]
     h = None
     for f in files:
         for x in f.harnesses:
